@@ -106,6 +106,8 @@ def split_traces(ctx, tr, label, max_events=25000):
 
 def validate_traces(ctx, tr, scen, label):
     if not os.path.exists(tr) or os.path.getsize(tr) == 0:
+        if ctx.violations:      # the run was cut short by a crash / data race that is already reported
+            return
         raise Infra("no trace recorded (%s)" % tr)
     scenarios = [json.loads(x) for x in open(scen)] if os.path.exists(scen) else []
     chunks, ntr = split_traces(ctx, tr, label)
